@@ -283,6 +283,7 @@ def run_unit(u):
                 target = ['doc'] if r < .6 else (['el', rng.randrange(1000)] if r < .9 else ['detached', rng.randrange(1000)])
                 case = cases.Case(tops, how, target)
                 tcfg = sels.tune_to_tree(cfg, case.top_sn, rng)
+                used_ = []
                 for k3 in range(3):
                     if forced is None and rng.random() < .05:
                         ast, text = forgiving_form(rng, tcfg)
@@ -298,6 +299,33 @@ def run_unit(u):
                     if info.get('match_law_checked'):
                         bump('match_law_checked')
                     handle(case, ast, st, info, tops)
+                    used_.append(ast)
+                if forced is None and used_ and rng.random() < .3:
+                    # the caller edits the document and asks the same questions again on the same tree objects (same patterns, so the
+                    # same cached compiled selectors): the answer is for the tree as it is now
+                    import bs4 as _bs4
+                    tags_ = [e for e in case.top_obj.descendants if isinstance(e, _bs4.Tag)]
+                    if len(tags_) > 1:
+                        a_, b_ = rng.sample(tags_, 2)
+                        if rng.random() < .7:
+                            a_.attrs, b_.attrs = b_.attrs, a_.attrs          # two elements trade their attributes (classes, ids, ...)
+                        else:
+                            a_.attrs = {}
+                        case.top_sn, case.idmap = trees.snapshot(case.top_obj)
+                        case.target_sn = case.idmap[id(case.target_obj)]
+                        for ast in used_:
+                            st, info = cases.compare_select(sv, case, ast, check_structure=False)
+                            bump('asked_again_after_caller_edit')
+                            if st in ('DISAGREE', 'RAISE'):
+                                bump('VIOL:' + st)
+                                if len(res['viol']) < 6:
+                                    res['viol'].append(case.witness(ast, info['text'], '%s after a caller edit between two calls on the same tree: select(%r) on %s -> got %s, '
+                                                                    'reference says %s %s' % (st, info['text'], trees.describe(case.top_obj, 200), info.get('got'), info.get('exp'),
+                                                                                              info.get('exc', '')), status=st,
+                                                                    **{'class': sig('after-edit', st, sels.shape(ast)), 'after_edit': True,
+                                                                       'unit': dict(u)}))
+                            else:
+                                res['evals'] += 1
     else:
         sl = scope_selectors(u.get('tier', 'quick'))
         texts = [sels.render(a) for a in sl]
@@ -316,6 +344,11 @@ def run_unit(u):
 
 
 def replay(w):
+    if w.get('after_edit'):
+        # the witness needs the caller's edit between two calls: re-run the (deterministic) unit that produced it
+        r = run_unit(w['unit'])
+        v = [x for x in r['viol'] if x.get('after_edit')]
+        return dict(w, status_now=v[0]['what']) if v else None
     import soupsieve as sv
     tops = cases.rebuild(w)
     case = cases.Case(tops, w['how'], w['target'], w.get('nsmap'))
